@@ -3,7 +3,7 @@
    choice times the truth of the query in the well-founded model of the induced normal program,
    conditioned on the evidence.  Only statements here; proofs in Sem/WMCProofs.v, Sem/StratProofs.v. *)
 From Coq Require Import NArith QArith List Bool.
-From PL.Sem Require Import Program Sem SemBasics PermProofs StratProofs WMC WMCProofs.
+From PL.Sem Require Import Program Sem SemBasics PermProofs StratProofs FuelProofs WMC WMCProofs.
 Import ListNotations.
 
 (* ad_encoding: the exactly-one constraint over the k head variables plus the extra "none" variable, with
@@ -43,6 +43,11 @@ Theorem C01_fragment_total : forall cs ev q,
   neg_cycle_free gatom gatom_eqb cs = Some true -> prob_gen gatom gatom_eqb cs ev q <> NotTwoValued.
 Proof. exact (neg_cycle_free_not_NotTwoValued gatom gatom_eqb gatom_eqb_spec). Qed.
 Print Assumptions C01_fragment_total.
+
+(* the specification is total: the fuel of its fixpoint iterations (2 + number of head atoms) always suffices *)
+Theorem C01_never_out_of_fuel : forall cs ev q, prob_gen gatom gatom_eqb cs ev q <> OutOfFuel.
+Proof. exact (prob_gen_fuel gatom gatom_eqb gatom_eqb_spec). Qed.
+Print Assumptions C01_never_out_of_fuel.
 
 (* FULL STATEMENT of DESIGN C01, NOT proved (the theorems above are the part `C01_pipeline_correct_partial`):
      C01_pipeline_correct : forall P q, wf_program P -> stratified P -> infer_m P q = Sem.prob P q
